@@ -342,7 +342,7 @@ func setBigFloatFromBigFloat(value *big.Float, dst reflect.Value) {
 }
 
 func setBigFloatFromDecimalFloat(value compact_float.DFloat, dst reflect.Value) {
-	bf := value.BigFloat()
+	bf := conversions.DecimalFloatToBigFloat(value)
 	dst.Set(reflect.ValueOf(*bf))
 }
 
@@ -383,7 +383,7 @@ func setPBigFloatFromBigFloat(value *big.Float, dst reflect.Value) {
 }
 
 func setPBigFloatFromDecimalFloat(value compact_float.DFloat, dst reflect.Value) {
-	dst.Set(reflect.ValueOf(value.BigFloat()))
+	dst.Set(reflect.ValueOf(conversions.DecimalFloatToBigFloat(value)))
 }
 
 func setPBigFloatFromBigDecimalFloat(value *apd.Decimal, dst reflect.Value) {
